@@ -44,7 +44,7 @@ def classify(ctx, comp, seq, ix, cache):
         if s['kind'] in ('case',):
             lossy.add('*case*')
             continue
-        if v in ('replace',):
+        if v.startswith('replace'):
             lossy.add('*replace*')
             continue
         unknown.append(f"{v}[{s['kind']}]")
